@@ -7,6 +7,8 @@ package txfile
 
 import (
 	"fmt"
+	"math/rand"
+	"runtime"
 	"sync"
 	"time"
 )
@@ -53,21 +55,27 @@ func verifValue(base string) uint64 {
 	return v
 }
 
-func verifU64(name string) uint64     { return verifValue(name) }
-func verifU32(name string) uint32     { return uint32(verifValue(name)) }
-func verifU16(name string) uint16     { return uint16(verifValue(name)) }
-func verifU8(name string) uint8       { return uint8(verifValue(name)) }
-func verifInt(name string) int        { return int(verifValue(name)) }
-func verifUint(name string) uint      { return uint(verifValue(name)) }
-func verifBool(name string) bool      { return verifValue(name) != 0 }
+func verifU64(name string) uint64 { return verifValue(name) }
+func verifU32(name string) uint32 { return uint32(verifValue(name)) }
+func verifU16(name string) uint16 { return uint16(verifValue(name)) }
+func verifU8(name string) uint8   { return uint8(verifValue(name)) }
+func verifInt(name string) int    { return int(verifValue(name)) }
+func verifUint(name string) uint  { return uint(verifValue(name)) }
+func verifBool(name string) bool  { return verifValue(name) != 0 }
 func verifChoose(n int) int {
 	if n <= 1 {
 		return 0
 	}
 	return int(verifValue("__choose"))
 }
-func verifSched(preemptions int)      {}
-func verifYield()                     {}
+func verifSched(preemptions int) {}
+func verifYield() {
+	if rand.Intn(3) == 0 {
+		time.Sleep(time.Duration(rand.Intn(200)) * time.Microsecond)
+	} else {
+		runtime.Gosched()
+	}
+}
 func verifSortTies(on bool)           {}
 func verifConcretize(v uint64) uint64 { return v }
 func verifThreadsBlocked() int        { return -1 }
@@ -126,3 +134,10 @@ func verifNative() bool { return true }
 
 // verifNativeSleep gives background goroutines time to reach their blocking point.
 func verifNativeSleep() { time.Sleep(2 * time.Millisecond) }
+
+var verifNativeMu sync.Mutex
+
+// verifNativeLock/Unlock protect harness-side ghost counters when the harness
+// runs natively with real goroutines (the engine runs one thread at a time).
+func verifNativeLock()   { verifNativeMu.Lock() }
+func verifNativeUnlock() { verifNativeMu.Unlock() }
